@@ -1355,10 +1355,10 @@ class Process(StateMachine, persistence.Savable, metaclass=ProcessStateMachineMe
                 # If the interruption was caused by a call to a Process method then there is an interrupt
                 # action ready to be executed.  It need not be the one that delivered this interruption: a
                 # later request made during the same step replaced it and must not be overruled by the stale
-                # exception.  Only when there is no action (the step itself raised the interruption), or the
-                # action was withdrawn and this is a different interruption, build the action below
-                action = self._interrupt_action
-                if action is None or (action.cancelled() and action.cookie is not exception):
+                # exception, and a request that was withdrawn again (its cancelled action is still in place)
+                # must not be revived by it.  Only when there is no action at all, i.e. the step itself raised
+                # the interruption, build the action below
+                if self._interrupt_action is None:
                     self._set_interrupt_action_from_exception(exception)
 
             except KeyboardInterrupt:
